@@ -31,7 +31,7 @@ from ..ref import gevp as R
 
 ID = 'C16'
 LEVEL = 'exploration'
-DECIDING = ['tap:_GEVP_solver', 'tap:Corr.GEVP', 'tap:Corr.Eigenvalue', 'tap:Corr.projected', 'tap:Corr.prune',
+DECIDING = ['mpm_mixed_sign_energies_judged', 'mpm_mixed_sign_square_pencil_k<p_energies_judged', 'tap:_GEVP_solver', 'tap:Corr.GEVP', 'tap:Corr.Eigenvalue', 'tap:Corr.projected', 'tap:Corr.prune',
             'tap:matrix_pencil_method', 'solver_calls_judged', 'vectors_judged', 'vector_fluctuations_judged',
             'projected_values_judged', 'projected_fluctuations_judged', 'sorting_nontrivial_slices_judged',
             'undefined_slices_judged', 'prune_cases_judged', 'mpm_energies_judged', 'history_repeats_judged', 'held_results_judged',
@@ -46,7 +46,9 @@ RULE = ('cases: correlator matrices G(t) = Z F(t) Z^T from N = 2..5 Obs-valued e
         'object in both slots; matrices times 1e-8..1e8 and operator normalisations spanning 4 orders; overlaps from a pool of shared Obs; prange / tag / '
         'gamma_method results / prior symmetrisation stored on the correlator; t0 = 0, ts = t0+1, ts = T-1; ensembles A / A1 / AB and replicas r2 / r10; '
         'histories A, B, A over different matrices of equal N, T, t0, names (GEVP, Eigenvalue, projected, prune interleaved) with held results and input '
-        'digests re-checked; rejection rows. non-trivial: at least one (t > t0, state) entry inside the '
+        'digests re-checked; rejection rows; an extra matrix equal to an earlier one except for one undefined interior slice; spectator observables '
+        '(derivative exactly 0, first / last parameter) and operators decoupled by exact zeros; default projection; every call repeated with the same '
+        'argument objects somewhere; matrix pencil stratified by case index over amplitude signs x parity of T x p in {default, T/2, k, interior, T-k}. non-trivial: at least one (t > t0, state) entry inside the '
         'numerical judgement domain was compared with the exact spectrum and the inputs fluctuate; '
         'distinct = digest of (energies, overlaps, T, t0, ts, options)')
 ASSUMPTIONS = ['numerical judgement domain: entries whose expected rounding error eps*cond(G(t0))*lambda_max(t)/lambda_n(t) (eigenvalues) or '
@@ -59,6 +61,7 @@ ASSUMPTIONS = ['numerical judgement domain: entries whose expected rounding erro
                'cond = condition number of the equilibrated matrix D^-1 G(t0) D^-1 + 10 (the algorithms are covariant under a rescaling of the operators; '
                'observed/bound <= 2.6 with operator scales spanning 1e4); cond <= 1e9 by construction (gaps are narrowed when N*t0 is large)',
                't0 = 0 is included as a boundary although the quantifier starts at t0 = 1 (the exact identities hold there as well)',
+               'every judgement counts its events as monitor_events["j:<mechanism>"]; the quick tier is sized so that each has >= ~50 events',
                'rejection rows only demand that an exception is raised (N = 1, ts <= t0, missing ts, unknown sort, Ntrunc >= N, non-positive G(t0), undefined t0, mpm p / k limits)']
 BUDGET = {'quick': 40, 'thorough': 400}
 
@@ -259,11 +262,13 @@ STATES = ['prange', 'tag', 'gm', 'presym']
 
 
 def make_model(rng, N, T, t0, ts, kind='exp', nonsym=False, nonepat='no', min_defined=None, chains=None, scale=None,
-               share=None, rep=None, state=None):
+               share=None, rep=None, state=None, spect=None, block=None):
     """kind: 'exp' | 'cross'.  nonepat: 'no' | 'pad' | 'int' | 'many'.
     scale: 'unit' | 'global' (matrix times c in 1e-8..1e8) | 'rows' (operator normalisations spanning 4 orders of magnitude).
     share: overlaps drawn from a pool of N Obs, each used at N matrix positions (circulant Z).
-    rep: representation of the content handed to Corr.  state: things stored on the correlator before it is used."""
+    rep: representation of the content handed to Corr.  state: things stored on the correlator before it is used.
+    spect: 'none' | 'first' | 'last' - an observable on its own chain the matrix does not depend on (derivative exactly 0) in the
+    parameter list.  block: operator 0 couples to state 0 only and no other operator does (exact zeros in every G(t), Obs times 0)."""
     m = Model()
     m.N, m.T, m.t0, m.ts, m.kind, m.nonsym, m.nonepat = N, T, t0, ts, kind, nonsym, nonepat
     layout, ce, cz = chains if chains is not None else rand_chains(rng)
@@ -275,18 +280,30 @@ def make_model(rng, N, T, t0, ts, kind='exp', nonsym=False, nonepat='no', min_de
         scale = str(rng.choice(['unit', 'unit', 'global', 'rows', 'rows+global']))
     if share and 'rows' in scale:
         scale = 'global'
-    m.scale, m.share = scale, share
+    if spect is None:
+        spect = str(rng.choice(['none', 'none', 'none', 'first', 'last']))
+    if block is None:
+        block = bool(not share and rng.random() < 0.12)
+    m.scale, m.share, m.spect, m.block = scale, share, spect, block
     c = 10.0 ** rng.uniform(-8, 8) if 'global' in scale else 1.0
     d = 10.0 ** rng.uniform(-2, 2, size=N) if 'rows' in scale else np.ones(N)
     d = d * np.sqrt(c)
     sig = 10.0 ** rng.uniform(-4, -2)
     Eo = [mk_obs(rng, x, sig, ce) for x in rand_spectrum(rng, N, t0)]
-    Z0 = rand_overlaps(rng, N, circulant=share) * d[:, None]
+    Z0 = rand_overlaps(rng, N, circulant=share)
+    if block:
+        Z0[0, 1:] = 0.0
+        Z0[1:, 0] = 0.0
+        if np.linalg.cond(Z0) > 30:
+            raise Skip()
+    Z0 = Z0 * d[:, None]
     if share:
         pool = [mk_obs(rng, Z0[i, 0], sig * (0.3 * d[i] + abs(Z0[i, 0])), cz) for i in range(N)]   # first column = the N distinct numbers
         Zo = [pool[(i - n) % N] for i in range(N) for n in range(N)]                              # the same objects again and again
     else:
         Zo = [mk_obs(rng, Z0[i, n], sig * (0.3 * d[i] + abs(Z0[i, n])), cz) for i in range(N) for n in range(N)]
+        if block:
+            Zo = [o if Z0[i // N, i % N] != 0 else 0.0 * o for i, o in enumerate(Zo)]     # an observable multiplied by zero
     m.E = np.array([o.value for o in Eo])
     m.Z = np.array([o.value for o in Zo]).reshape(N, N)
     if np.min(np.diff(m.E)) < 0.14 or np.linalg.cond(m.Z / d[:, None]) > 40:
@@ -318,12 +335,22 @@ def make_model(rng, N, T, t0, ts, kind='exp', nonsym=False, nonepat='no', min_de
     m.W = W
     m.Gin = G if W is None else G + W * m.q
     b, e = m.b, m.e
+    off = 0
+    if spect != 'none':
+        so = mk_obs(rng, float(rng.normal()), 0.3, [('spectator|r1', rand_idl(rng))])
+        m.chains['spectator|r1'] = len(so.deltas['spectator|r1'])
+        zero = np.zeros(J.shape[:3] + (1,))
+        if spect == 'first':
+            data, J, off = [so] + data, np.concatenate([zero, J], axis=3), 1
+        else:
+            data, J = data + [so], np.concatenate([J, zero], axis=3)
 
     def func(x, **kw):
+        x = x[off:]
         g = R.matrices(x[:N], np.reshape(x[N:N + N * N], (N, N)), T, b, e, jac=False)
         g = 0.5 * (g + g.transpose(0, 2, 1))
         if W is not None:
-            g = g + W * x[-1]
+            g = g + W * x[N + N * N]
         return g
     out = PE.derived_observable(func, data, man_grad=J)
     m.mirrored = False
@@ -697,6 +724,7 @@ def run_gevp(ctx, m, sort, method, vo, rng=None):
     ctx.cell('input', m.scale, m.rep, 't0=0' if t0 == 0 else ('ts=t0+1' if ts == t0 + 1 else ('ts=T-1' if ts == T - 1 else 'ts')))
     for st in m.state:
         ctx.cell('state', st, str(sort))
+    ctx.cell('spectator', m.spect, 'block-zeros' if m.block else 'generic', 'obs' if vo else 'float')
     if rng is not None:
         vecs = C.GEVP(ni(rng, t0), ts=ni(rng, ts_arg), sort=sort, **kw)
     else:
@@ -781,6 +809,30 @@ def projected_variant(ctx, rng, m, sort, n, vecs, vo, what):
     ctx.count('projected_variants_judged')
     judge_projected(ctx, m, m.t0, m.ts, sort, n, pr, vo, fv, dict(what, via='projected:' + how))
     jrequire(ctx, fast_digest(vec) == before, 'mutation:projected-changes-its-vector-argument', dict(what, how=how))
+    # the same argument object once more: same result
+    if not vo and rng.random() < 0.3:
+        again = C.projected(vec)
+        first = C.projected(vec)
+        jrequire(ctx, fast_digest(again) == fast_digest(first), 'history:projected-twice-with-the-same-vector-differs', dict(what))
+
+
+def judge_default_projection(ctx, m, what):
+    """projected() without vectors = (1, 0, .., 0) on both sides: the entries of the vector that are exactly zero are
+    spectators, the result is element (0, 0) of the matrix, value and every fluctuation."""
+    pr = m.corr.projected()
+    for t in range(m.T):
+        item = pr.content[t]
+        if t not in m.defined:
+            jrequire(ctx, item is None, 'undefined-slice:projected-is-not-None', dict(what, t=t, via='projected()'))
+            continue
+        if not jrequire(ctx, item is not None, 'projected:defined-slice-is-None', dict(what, t=t, via='projected()')):
+            continue
+        o, ref = item[0], m.Gobs[t, 0, 0]
+        jclose(ctx, o.value, ref.value, 'projected:default-vector-is-not-element-00', 't=%d value' % t, rtol=1e-13, detail=what)
+        for c in m.chains:
+            g, e = obs_deltas(o, m.chains)[c], obs_deltas(ref, m.chains)[c]
+            jclose(ctx, g, e, 'projected:default-vector-is-not-element-00', 't=%d chain %s' % (t, c), rtol=1e-12,
+                   scale=max(float(np.max(np.abs(e))), abs(ref.value) * 1e-6, 1e-300), detail=what)
 
 
 def case_gevp_float(ctx, rng, N, nonsym, nonepat, kind):
@@ -832,6 +884,7 @@ def case_gevp_float(ctx, rng, N, nonsym, nonepat, kind):
                 e = R.err_vector(kap, lam_at(m, t0, t), l)
                 bound(ctx, float(np.max(np.abs(coeffs(m, t0, a[n][t] - b[n][t])))), 1e-12 + 2 * FV * e,
                       'methods:eigh-and-cholesky-vectors-differ', sort=sort, state=n, t=t, N=N, t0=t0)
+    judge_default_projection(ctx, m, dict(N=N, T=T, nonsym=nonsym, none=nonepat, scale=m.scale, rep=m.rep, stored=m.state))
     judge_held(ctx, m)
     judge_unchanged(ctx, m, 'GEVP / Eigenvalue / projected, vector_obs=False')
     ctx.sample({'N': N, 'T': T, 't0': t0, 'ts': ts, 'E': m.E, 'cond_G0': kap, 'model': kind, 'nonsym': nonsym, 'undefined': sorted(set(range(T)) - m.defined),
@@ -911,6 +964,8 @@ def do_prune(ctx, rng, m, Ntrunc, t0b, idx):
         ctx.violation('prune:shape', dict(what, got_T=getattr(P, 'T', None), got_N=getattr(P, 'N', None)))
         return
     hold(m, 'prune', P)
+    if idx % 2 == 1:
+        jrequire(ctx, fast_digest(C.prune(Ntrunc, **kw)) == fast_digest(P), 'history:prune-twice-with-the-same-arguments-differs', what)
     lam_s = lam_at(m, t0, ts)
     kept = R.order_at(m.F, t0, ts)[:Ntrunc]                  # states with the largest eigenvalues at tproj = lowest energies
     ev_s = max(R.err_vector(kap, lam_s, l) for l in kept)
@@ -1024,6 +1079,21 @@ def case_history(ctx, rng, N, idx):
             raise Skip()
         m.last = None
         ms.append(m)
+    # equal summary, different member: the first matrix once more with one interior timeslice undefined
+    # (same N, T, t0, names, same first / last slice, the very same Obs objects everywhere else)
+    cand = [t for t in range(t0 + 1, T - 1) if t != ts]
+    if cand and rng.random() < 0.7:
+        import copy
+        th = int(rng.choice(cand))
+        h = copy.copy(ms[0])
+        h.defined = ms[0].defined - {th}
+        h.corr = PE.Corr([None if t == th else ms[0].corr.content[t] for t in range(T)])
+        h.nonepat, h._dG, h.kappa, h.held, h.last = 'int', None, {}, [], None
+        h.key = digest(ms[0].key, 'hole', th)
+        h.digest0 = fast_digest(h.corr)
+        ms.insert(1, h)
+        K += 1
+        ctx.count('history_equal_summary_models')
     ctx.cell('history', 'N%d' % N, 'K%d' % K)
 
     def op_gevp(m, sort, method, vo=False):
@@ -1136,21 +1206,37 @@ def case_reject(ctx, rng, idx):
 
 # ------------------------------------------------------------------------------------------
 # M3: matrix pencil
-def case_mpm(ctx, rng, k, idx):
-    r = rng.random()
-    if r < 0.15:
-        T = 2 * k                                           # the limit: k exponentials, 2k points (p = k, a k x k pencil)
-    elif r < 0.25:
-        T = 2 * k + 1
+MPM_SIGNS = ['mixed', 'positive', 'mixed', 'negative']
+MPM_PMODES = ['default', 'half', 'k', 'interior', 'max']
+
+
+def case_mpm(ctx, rng, k, idx, j=0):
+    """Stratified by the case index (not by independent draws): amplitude signs x parity of T x choice of p, so that every
+    combination - in particular mixed signs with an even T and the square pencil p = T/2 > k - occurs in every 40 cases."""
+    sign = MPM_SIGNS[idx % 4]
+    even = (idx // 4) % 2 == 0
+    pmode = MPM_PMODES[(idx // 8) % 5]
+    amp = ['generic', 'scaled', 'spread', 'same-object', 'generic'][(idx // 40 + j) % 5]
+    if rng.random() < 0.2:
+        T = 2 * k if even else 2 * k + 1                   # the limit: k exponentials, 2k points (p = k, a k x k pencil)
     else:
-        T = int(rng.integers(max(8, 2 * k), 25))
+        T = int(rng.integers(max(8, 2 * k), 24))
+        if (T % 2 == 0) != even:
+            T += 1
+    p = {'default': None, 'half': T // 2, 'k': k, 'max': T - k, 'interior': int(rng.integers(k, T - k + 1))}[pmode]
     E = rand_spectrum(rng, k, 1)
     layout, ce, cz = rand_chains(rng)
     chains = {n: len(i) for n, i in ce + cz}
     sig = 10.0 ** rng.uniform(-4, -2)
-    amp = str(rng.choice(['generic', 'generic', 'scaled', 'spread', 'same-object']))
+    sg = np.ones(k)
+    if sign == 'negative':
+        sg[:] = -1.0
+    elif sign == 'mixed':
+        sg = np.array([(-1.0) ** (i + int(rng.integers(0, 2))) for i in range(k)])      # alternating: both signs occur for k >= 2
+    if amp == 'same-object' and sign == 'mixed':
+        amp = 'generic'
     c0 = 10.0 ** rng.uniform(-8, 8) if amp == 'scaled' else 1.0
-    A = rng.uniform(0.3, 2.0, size=k) * rng.choice([1.0, 1.0, 1.0, -1.0], size=k) * c0
+    A = rng.uniform(0.3, 2.0, size=k) * sg * c0
     if amp == 'spread':
         A = A * 10.0 ** rng.uniform(-1.5, 1.5, size=k)
     Eo = [mk_obs(rng, x, sig, ce) for x in E]
@@ -1162,8 +1248,20 @@ def case_mpm(ctx, rng, k, idx):
     E = np.array([o.value for o in Eo])
     A = np.array([o.value for o in Ao])
     c, J = R.single_correlator(E, A, T)
-    co = PE.derived_observable(lambda x, **kw: R.single_correlator(x[:k], x[k:], T)[0], Eo + Ao, man_grad=J)
-    how = ['list', 'ndarray', 'list-default-k', 'fortran-view'][idx % 4]
+    # spectator: an observable the correlator does not depend on (derivative exactly 0), first or last in the parameter list
+    spect = str(rng.choice(['none', 'none', 'first', 'last']))
+    pars = Eo + Ao
+    off = 0
+    if spect != 'none':
+        so = mk_obs(rng, float(rng.normal()), 0.3, [('spectator|r1', rand_idl(rng))])
+        chains['spectator|r1'] = len(so.deltas['spectator|r1'])
+        zero = np.zeros((T, 1))
+        if spect == 'first':
+            pars, J, off = [so] + pars, np.concatenate([zero, J], axis=1), 1
+        else:
+            pars, J = pars + [so], np.concatenate([J, zero], axis=1)
+    co = PE.derived_observable(lambda x, **kw: R.single_correlator(x[off:off + k], x[off + k:off + 2 * k], T)[0], pars, man_grad=J)
+    how = ['list', 'ndarray', 'list-default-k', 'fortran-view'][(idx + j) % 4]
     if how == 'ndarray':
         data = np.array(co)
     elif how == 'fortran-view':
@@ -1173,21 +1271,19 @@ def case_mpm(ctx, rng, k, idx):
         data = big[:, 0]                                    # strided view of a 2-d object array
     else:
         data = list(co)
-    p = None
-    if rng.random() < 0.5:
-        p = int(rng.integers(max(k, T // 3), T - k + 1))
-        if T <= p or T - p < k or p < k:
-            p = None
-    ctx.cell('mpm', 'k%d' % k, 'p' if p is not None else 'default', 'T=2k' if T == 2 * k else ('T=2k+1' if T == 2 * k + 1 else 'T'))
-    ctx.cell('mpm-input', how, amp)
+    square = (p if p is not None else max(T // 2, k)) * 2 == T
+    pe_ = p if p is not None else max(T // 2, k)
+    ctx.cell('mpm', 'k%d' % k, sign, 'even' if even else 'odd', pmode)
+    ctx.cell('mpm-input', how, amp, 'spectator-' + spect)
+    ctx.cell('mpm-shape', 'T=2k' if T == 2 * k else ('T=2k+1' if T == 2 * k + 1 else 'T'), 'k=p' if pe_ == k else 'k<p', 'square' if square else 'rect')
     kw = dict(k=ni(rng, k))
     if p is not None:
         kw['p'] = ni(rng, p)
     if how == 'list-default-k' and k == 1 and p is None:
         kw = {}
     d0 = fast_digest(data)
-    if idx % 5 == 4:
-        # another correlator of the same length on the same chains in between: A, B, A
+    if idx % 3 == 2:
+        # another correlator of the same length on the same chains in between: A, B, A with the same argument objects
         first = PE.mpm.matrix_pencil_method(data, **kw)
         E2 = rand_spectrum(rng, k, 1)
         other = [mk_obs(rng, float(np.sum(np.exp(-E2 * t))), sig, ce) for t in range(T)]
@@ -1202,7 +1298,8 @@ def case_mpm(ctx, rng, k, idx):
         en = PE.mpm.matrix_pencil_method(data, **kw)
     ctx.count('input_unchanged_judged')
     jrequire(ctx, fast_digest(data) == d0, 'mutation:mpm-changes-its-input', dict(k=k, T=T, p=p, how=how))
-    what = dict(k=k, T=T, p=p, E=E, amplitudes=amp, input=how)
+    hostile = sign == 'mixed' and k >= 2
+    what = dict(k=k, T=T, p=p, E=E, amplitudes=amp, signs=sign, input=how, spectator=spect)
     jc(ctx, 'mpm:result-shape')
     if len(en) != k or not all(is_obs(x) for x in en):
         ctx.ev()
@@ -1223,6 +1320,13 @@ def case_mpm(ctx, rng, k, idx):
         return
     for n in range(k):
         ctx.count('mpm_energies_judged')
+        if hostile:
+            ctx.count('mpm_mixed_sign_energies_judged')
+            if square and pe_ > k:
+                ctx.count('mpm_mixed_sign_square_pencil_k<p_energies_judged')
+        ctx.count('mpm_%s_T_energies_judged' % ('even' if even else 'odd'))
+        ctx.count('mpm_p_%s_energies_judged' % pmode)
+        ctx.count('mpm_%s_energies_judged' % ('k=p' if pe_ == k else 'k<p'))
         jclose(ctx, gv[n], E[n], 'mpm:energy-value', 'level %d' % n, rtol=vtol, detail=what)
         if dtol > 1e-6:
             continue
@@ -1265,25 +1369,30 @@ def plan(tier):
     time budget can cut the run short on a loaded machine."""
     q = tier == 'quick'
     p = []
-    for j in range(2 if q else 6):              # several kinds per k: cheap cases get a larger share of a time-limited run
+    for j in range(3 if q else 6):              # several kinds per k: cheap cases get a larger share of a time-limited run
         for k in (1, 2, 3):
-            p.append(('mpm:%d:%d' % (k, j), 10 if q else 85))
+            p.append(('mpm:%d:%d' % (k, j), 40 if q else 200))           # 40 = one full round of the strata of case_mpm
     for N in (3, 4, 5):
         for npat in NONE_PATS:
-            p.append(('prune:%d:%s' % (N, npat), 4 if q else 80))
-    p.append(('reject', 2 if q else 20))
+            p.append(('prune:%d:%s' % (N, npat), 8 if q else 80))
+    p.append(('reject', 50 if q else 200))
     for N in (2, 3, 4):
-        p.append(('hist:%d' % N, 6 if q else 100))
+        p.append(('hist:%d' % N, 12 if q else 150))
+    po, pf = [], []
     for N in (2, 3, 4, 5):
         for sort in ('Eigenvalue', 'Eigenvector', 'None'):
             for sym in ('sym', 'nonsym'):
                 for npat in NONE_PATS:
-                    p.append(('o:%d:%s:%s:%s' % (N, sort, sym, npat), (2 if N < 5 else 1) if q else 30))
+                    po.append(('o:%d:%s:%s:%s' % (N, sort, sym, npat), (2 if N < 5 else 1) if q else 30))
     for N in (2, 3, 4, 5):
         for sym in ('sym', 'nonsym'):
             for npat in NONE_PATS + ['many']:
                 for kind in ('exp', 'cross'):
-                    p.append(('f:%d:%s:%s:%s' % (N, sym, npat, kind), (2 if N < 3 else 1) if q else 40))
+                    pf.append(('f:%d:%s:%s:%s' % (N, sym, npat, kind), (2 if N < 3 else 1) if q else 40))
+    # vector_obs and float kinds alternate, so that a run cut short by its time budget has seen both
+    for i in range(max(len(po), len(pf))):
+        p.extend(po[i:i + 1])
+        p.extend(pf[i:i + 1])
     return p
 
 
@@ -1296,7 +1405,7 @@ def run_case(ctx, kind, idx, rng):
     elif k[0] == 'prune':
         case_prune(ctx, rng, int(k[1]), k[2], idx)
     elif k[0] == 'mpm':
-        case_mpm(ctx, rng, int(k[1]), idx)
+        case_mpm(ctx, rng, int(k[1]), idx, int(k[2]) if len(k) > 2 else 0)
     elif k[0] == 'hist':
         case_history(ctx, rng, int(k[1]), idx)
     elif k[0] == 'reject':
